@@ -1,6 +1,6 @@
 """C03 — pipelines compose steps in order and invert by reversing inverted steps."""
 import json, os, collections
-import vlib, scriptlib, pipelib
+import vlib, scriptlib, pipelib, rtlib
 
 PROP = "C03"
 
@@ -64,6 +64,11 @@ def run(tier, seed):
     # ---- internal conformance: the step events of the real pipeline operator (hook) are a behaviour
     # ---- of the small-step machine (per-step counts at every nesting level, skipped steps)
     steps_trace(res, specrecs, 6000 if tier == "quick" else len(specrecs))
+    # ---- the data-free protocol (spec/Runtime.tla): model checked, then the repository's own test suite and a
+    # ---- spread of the behaviours above, recorded through the hooks, validated as behaviours of it
+    rtlib.check_model(res, tier)
+    rtlib.check_repo_tests(res)
+    rtlib.check_harness(res, PROP, behaviours, 1500 if tier == "quick" else 20000)
     summary, mism = scriptlib.replay_scripts(PROP, behaviours)
     res.behaviours_replayed = summary["behaviours"] - len(mism)
     res.evaluations = summary["evaluations"]
